@@ -1,6 +1,7 @@
 package run
 
 import (
+	"verif/sim/oracle"
 	"reflect"
 	"strings"
 )
@@ -22,6 +23,18 @@ func docRanges(v interface{}, out *[]AddrRange, depth int) {
 		}
 		for _, e := range x {
 			docRanges(e, out, depth+1)
+		}
+	case *oracle.Rec:
+		if x != nil {
+			p := uint64(reflect.ValueOf(x).Pointer())
+			*out = append(*out, AddrRange{p, p + uint64(reflect.TypeOf(*x).Size())})
+			docRanges(x.In, out, depth+1)
+			docRanges(x.Sub, out, depth+1)
+		}
+	case []oracle.Rec:
+		if cap(x) > 0 {
+			p := uint64(reflect.ValueOf(x).Pointer())
+			*out = append(*out, AddrRange{p, p + uint64(cap(x))*uint64(reflect.TypeOf(x).Elem().Size())})
 		}
 	case []interface{}:
 		if cap(x) > 0 {
